@@ -259,14 +259,14 @@ Lemma tok_dom4_name t : t <> [] -> atoi t = None -> canonical_nat t = None -> ca
 Proof.
   intros NE A C1 C2 U. split; [|exact U]. split; [exact NE|]. split.
   - split; intros n H; congruence.
-  - intros z H. congruence.
+  - split; [intros z H; congruence | exact U].
 Qed.
 
 Ltac tok_name := apply tok_dom4_name; [discriminate | reflexivity | reflexivity | reflexivity | utf8_ascii].
 Ltac tok_num :=
   split; [|utf8_ascii]; split; [discriminate|]; split;
   [ split; intros n H; vm_compute in H; inversion H; subst; vm_compute; discriminate
-  | intros z _; first [left; eexists; reflexivity | right; eexists; reflexivity] ].
+  | split; [intros z _; first [left; eexists; reflexivity | right; eexists; reflexivity] | utf8_ascii] ].
 Ltac tok_any := first [tok_name | tok_num].
 Ltac toks_ok :=
   match goal with |- Forall _ ?l => let l' := eval vm_compute in l in change l with l' end;
